@@ -567,6 +567,104 @@ def expv_defaults(mods):
     return nsteps
 
 
+# ------------------------------------------------------------------------------------------------
+# spatial/nonrigid.py StationaryVelocityFieldTransform: the flag its ExpFlow module gets at construction and after grid_()
+# ------------------------------------------------------------------------------------------------
+def svf_section(loader):
+    import types
+
+    class FakeGrid:
+        def __init__(self, flag, name):
+            self._flag, self.name, self.ndim = flag, name, 2
+
+        def align_corners(self):
+            return self._flag
+
+    class Base:                                   # stands for SpatialTransform / ParametricTransform (C09 models those)
+        def __init__(self, grid, groups=None, params=True, stride=None, resize=True):
+            self._grid = grid
+            self.params = None
+            self.init_args = dict(groups=groups, params=params, stride=stride, resize=resize)
+
+        def grid_(self, grid):
+            self._grid = grid
+            return self
+
+        def grid(self, grid=None):
+            if grid is None:
+                return self._grid
+            import copy
+            return copy.copy(self).grid_(grid)
+
+        def align_corners(self):
+            return self._grid.align_corners()
+
+    class NonRigid:
+        pass
+
+    class Exp:
+        def __init__(self, scale=None, steps=None, align_corners=True):
+            self.scale, self.steps, self.align_corners = scale, steps, align_corners
+
+    stubs = {"deepali.spatial.base": types.SimpleNamespace(NonRigidTransform=NonRigid),
+             "deepali.spatial.parametric": types.SimpleNamespace(ParametricTransform=Base),
+             "deepali.data.flow": types.SimpleNamespace(FlowFields=object),
+             "deepali.modules": types.SimpleNamespace(ExpFlow=Exp)}
+    core = loader.load("deepali.core")
+    had_fun = "functional" in core.__dict__
+    old_fun = core.__dict__.get("functional")
+    core.functional = types.SimpleNamespace()
+    saved = {k: loader.mods.get(k) for k in stubs}
+    loader.mods.update({k: v for k, v in stubs.items()})
+    loader.mods.pop("deepali.spatial.nonrigid", None)
+    try:
+        N = loader.load("deepali.spatial.nonrigid")
+    finally:
+        for k, v in saved.items():
+            if v is None:
+                loader.mods.pop(k, None)
+            else:
+                loader.mods[k] = v
+        loader.mods.pop("deepali.spatial.nonrigid", None)
+        if had_fun:
+            core.functional = old_fun
+        else:
+            del core.__dict__["functional"]
+    SVF = N.StationaryVelocityFieldTransform
+    init, after = {}, {}
+    for old in (True, False):
+        g1 = FakeGrid(old, "g1")
+        tr = SVF(g1, scale=Fraction(3, 2), steps=4)
+        e0 = tr.exp
+        if not isinstance(e0, Exp) or e0.scale != Fraction(3, 2) or e0.steps != 4 or not isinstance(e0.align_corners, bool):
+            raise TraceError("StationaryVelocityFieldTransform does not build ExpFlow(scale, steps, align_corners)")
+        init[old] = e0.align_corners
+        for new in (True, False):
+            for how in ("grid_", "grid"):
+                tr = SVF(g1, scale=Fraction(3, 2), steps=4)
+                e0 = tr.exp
+                g2 = FakeGrid(new, "g2")
+                r = tr.grid_(g2) if how == "grid_" else tr.grid(g2)
+                if r._grid is not g2:
+                    raise TraceError(f"{how}(grid) does not install the grid")
+                if r.exp is e0 or e0.align_corners != init[old]:
+                    raise TraceError(f"{how}(grid) modifies the ExpFlow module shared with shallow copies")
+                if r.exp.scale != e0.scale or r.exp.steps != e0.steps or not isinstance(r.exp.align_corners, bool):
+                    raise TraceError(f"{how}(grid) changes scale / steps of the exponential")
+                if how == "grid" and (tr._grid is not g1 or tr.exp is not e0):
+                    raise TraceError("grid(grid) modifies the original transformation")
+                if after.setdefault((old, new), r.exp.align_corners) != r.exp.align_corners:
+                    raise TraceError("grid_() and grid() give the exponential different flags")
+
+    def b(x):
+        return "true" if x else "false"
+    arms = "\n".join(f"  | {b(o)}, {b(n)} => {b(after[(o, n)])}" for o in (True, False) for n in (True, False))
+    return ("(* spatial/nonrigid.py StationaryVelocityFieldTransform: align_corners of its ExpFlow module at construction on a grid with\n"
+            "   flag ac, and after grid_(g) / grid(g) from a grid with flag `old` to one with flag `new` *)\n"
+            f"Definition gen_svf_init_exp_ac (ac : bool) : bool := if ac then {b(init[True])} else {b(init[False])}.\n"
+            f"Definition gen_svf_regrid_exp_ac (old new : bool) : bool :=\n  match old, new with\n{arms}\n  end.\n")
+
+
 def generate(loader):
     flow_mod = loader.load("deepali.core.flow")
     img = loader.load("deepali.core.image")
@@ -578,6 +676,7 @@ def generate(loader):
         cflags, cbatch = compose_section(mods)
         dsteps = expv_defaults(mods)
         expflow = expflow_section(loader, flow_mod)
+        svf = svf_section(loader)
     out += pre
     out += emit_flags("gen_expv", eflags)
     out += emit_flags("gen_compose", cflags)
@@ -603,4 +702,5 @@ def generate(loader):
     out.append("End Gen.\n")
     out.append(f"(* expv(flow) with steps=None: number of squaring steps (scale=None is 1: checked on the trace) *)\nDefinition gen_expv_default_steps : nat := {dsteps}%nat.\n")
     out.append(expflow)
+    out.append(svf)
     return "\n".join(out)
